@@ -2223,3 +2223,66 @@ Proof.
   eexists _, _, _. split; [vm_compute; reflexivity|]. split; [vm_compute; reflexivity|].
   split; [vm_compute; reflexivity|]. intros H. apply coverb_spec in H. vm_compute in H. discriminate.
 Qed.
+
+(* ================================================================== 2d: the probe, and the non-recursive watch *)
+Theorem probe C w k r de name w' : RSync C w k r -> c_mask C = WATCHDOG_ALL ->
+  In de (w_fs w) -> f_dir de = true -> scope C (f_path de) -> valid_name name = true ->
+  let p := f_path de ++ sep :: name in
+  apply_op w (Touch p) = Some w' ->
+  let k1 := kernel_op k (w_fs w) (Touch p) in
+  exists wd rest,
+    let ev := {| r_wd := wd; r_mask := IN_CREATE; r_cookie := 0; r_name := name; r_path := p |} in
+    read_batch C (w_fs w') (r, drainq k1, []) (k_queue k1) = Done (r, drainq k1, ev :: rest) /\
+    forall full rec content, emit_single full rec (c_root C) content ev = ([mk FileCreated p []; parent_modified p], false).
+Proof.
+  intros S Hm Hde Dde Sde Vn p Ha k1. destruct S as [W Hr I Cv Hq].
+  assert (Gd : gpath (f_path de)) by (apply npath_gpath; now apply (wf_np w W)).
+  assert (Edn : dirname p = f_path de) by now apply dirname_np.
+  assert (Ebn : basename p = name) by now apply basename_np.
+  assert (Ejn : join (f_path de) name = p) by now apply join_np.
+  destruct (Cv de Hde Dde Sde) as (kw & Cw & Cp & Cf).
+  destruct (watch_of_ino_some _ _ _ Cw) as [Hkw _]. assert (Mkw := wi_mask _ _ _ _ I kw Hkw). rewrite Hm in Mkw.
+  assert (Eino : ino_of (w_fs w) (dirname p) = f_ino de).
+  { unfold ino_of. rewrite Edn. now rewrite (flookup_in _ de (wf_paths w W) Hde). }
+  subst k1. cbn [kernel_op]. rewrite Eino, Ebn.
+  rewrite (knotify_watched k _ _ _ _ _ kw Cw) by (rewrite Mkw; vm_compute; discriminate).
+  rewrite Hq, kpush_nil.
+  rewrite (knotify_watched (kset_queue k [kev kw IN_CREATE false 0 name]) _ _ _ _ _ kw); [|rewrite (watch_of_ino_ext k); [exact Cw | reflexivity] | rewrite Mkw; vm_compute; discriminate].
+  cbn [kset_queue k_queue]. rewrite (kpush_snoc [] (kev kw IN_CREATE false 0 name)) by (vm_compute; discriminate).
+  rewrite (knotify_watched _ _ _ _ _ _ kw); [|rewrite (watch_of_ino_ext k); [exact Cw | reflexivity] | rewrite Mkw; vm_compute; discriminate].
+  cbn [kset_queue k_queue app]. rewrite (kpush_snoc [kev kw IN_CREATE false 0 name] (kev kw IN_OPEN false 0 name)) by (vm_compute; discriminate).
+  cbn [app read_batch].
+  assert (Hsp : src_path_of (f_path de) name = p) by (unfold src_path_of; destruct name; [discriminate Vn | exact Ejn]).
+  rewrite (read_one_inert C _ _ _ _ _ (f_path de)); [|unfold inert; repeat split; vm_compute; reflexivity | exact Cp].
+  rewrite (read_one_inert C _ _ _ _ _ (f_path de)); [|unfold inert; repeat split; vm_compute; reflexivity | exact Cp].
+  rewrite (read_one_inert C _ _ _ _ _ (f_path de)); [|unfold inert; repeat split; vm_compute; reflexivity | exact Cp].
+  unfold raw_ev, kev. cbn [k_wd k_mask k_cookie k_name app]. rewrite Hsp.
+  eexists _, _. split; [reflexivity|]. intros full rec content. reflexivity.
+Qed.
+
+(* non-recursive watch: an operation in a directory other than the root produces no kernel event at all *)
+Theorem flat C w k r p w' : RSync C w k r -> c_recursive C = false -> dirname p <> c_root C ->
+  (apply_op w (Touch p) = Some w' -> k_queue (kernel_op k (w_fs w) (Touch p)) = []) /\
+  (apply_op w (Mkdir p) = Some w' -> k_queue (kernel_op k (w_fs w) (Mkdir p)) = []).
+Proof.
+  intros S Hrec Hd. destruct S as [W Hr I Cv Hq].
+  assert (Hun : fisdir (dirname p) (w_fs w) = true -> watch_of_ino k (ino_of (w_fs w) (dirname p)) = None).
+  { intros Ed. destruct (fisdir_in _ _ Ed) as (de & Hde & Ede & _).
+    assert (Eino : ino_of (w_fs w) (dirname p) = f_ino de).
+    { unfold ino_of. rewrite <- Ede. now rewrite (flookup_in _ de (wf_paths w W) Hde). }
+    rewrite Eino. apply (not_scope_unwatched C w k r de W I Hde). unfold scope. rewrite Hrec, Ede. exact Hd. }
+  split; intros Ha; cbn [apply_op] in Ha; destruct (fisdir (dirname p) (w_fs w)) eqn:Ed; try discriminate;
+    cbn [kernel_op]; repeat (rewrite (knotify_unwatched k) by auto); exact Hq.
+Qed.
+
+(* the only watch of a non-recursive Inotify is the root's *)
+Theorem flat_watches C w k r : RSync C w k r -> c_recursive C = false ->
+  forall kw, In kw (k_watches k) -> alookup N.eqb (kw_wd kw) (pfw r) = Some (c_root C).
+Proof.
+  intros S Hrec kw Hk. destruct (wi_exact _ _ _ _ (rs_inv _ _ _ _ S) kw Hk) as (e & _ & _ & Se & _ & Pe & _).
+  unfold scope in Se. rewrite Hrec in Se. now rewrite <- Se.
+Qed.
+
+Lemma ops_covered_cons C w o ops w' : apply_op w o = Some w' -> covered_op C w o -> ops_covered C w' ops ->
+  ops_covered C w (o :: ops).
+Proof. intros Ha Ho Hc. cbn [ops_covered]. rewrite Ha. now split. Qed.
